@@ -279,6 +279,23 @@ func short(err error) string {
 // ---------------------------------------------------------------------------------------
 
 func gen(t *rapid.T) Case {
+	if rapid.IntRange(0, 11).Draw(t, "decimalmultiple") == 0 {
+		// multiples written as decimal fractions: whatever the verdict on a quotient that binary arithmetic
+		// cannot represent exactly, it is the same verdict in every mode
+		m := rapid.SampledFrom([]string{"0.1", "0.01", "0.3", "0.7", "1.1"}).Draw(t, "mult")
+		val := rapid.SampledFrom([]string{"0.3", "0.6", "0.07", "19.99", "0.2", "0.35", "1.1", "2.2", "3.3", "0.9", "2.1", "7"}).Draw(t, "multv")
+		num := `{"type":"number","multipleOf":` + m + `}`
+		var root, v string
+		switch rapid.IntRange(0, 2).Draw(t, "multwrap") {
+		case 0:
+			root, v = num, val
+		case 1:
+			root, v = `{"type":"object","properties":{"p":`+num+`,"q":{"type":"string"}}}`, `{"p":`+val+`,"q":1}`
+		default:
+			root, v = `{"type":"array","items":`+num+`}`, `[1,`+val+`,"x"]`
+		}
+		return Case{Schemas: map[string]string{"Root": root}, Value: v, Rep: rapid.SampledFrom([]string{"float64", "number"}).Draw(t, "rep")}
+	}
 	depth := 2
 	if h.Thorough() {
 		depth = rapid.IntRange(2, 4).Draw(t, "depth")
